@@ -308,6 +308,25 @@ def run(ctx):
             if v_ != (env_["perdisk"] or env_[isd_atoms[0]]):
                 good = False
     isd = repo.func("_pslinux", "is_storage_device")
+    # sysfs spells a '/' of a block-device name as '!' (cciss/c0d0 -> /sys/block/cciss!c0d0,
+    # Documentation/ABI: "slashes are replaced by !"): the probed path is built from the
+    # translated name, otherwise such whole disks count as partitions and leave the totals
+    acc = [c_ for c_ in ast.walk(isd.node) if isinstance(c_, ast.Call)
+           and dotted(c_.func) in ("os.access", "os.path.exists", "os.path.isdir", "os.stat")]
+    par_ = isd.node.args.args[0].arg if isd.node.args.args else "name"
+    translated = False
+    for st_ in ast.walk(isd.node):
+        if isinstance(st_, ast.Call) and isinstance(st_.func, ast.Attribute) \
+                and st_.func.attr == "replace" and len(st_.args) == 2 \
+                and [getattr(a_, "value", None) for a_ in st_.args] == ["/", "!"]:
+            translated = True
+    if acc and translated:
+        ctx.ok("C09.R3", "sysfs-name", sample=f"{par_}.replace('/', '!') before /sys/block/<name>")
+    else:
+        ctx.fail("C09.R3", "sysfs-name", isd.file, isd.node.lineno, isd.qual,
+                 "is_storage_device() probes /sys/block/<name> without translating '/' to '!': "
+                 "a whole disk such as cciss/c0d0 is taken for a partition and dropped from the "
+                 "system-wide totals")
     rets = [norm_stmt(s.value) for s in ast.walk(isd.node) if isinstance(s, ast.Return)]
     if good and any("os.access" in r and "F_OK" in r for r in rets):
         ctx.ok("C09.R3", "partition-filter", sample="skip iff not perdisk and not "
